@@ -23,4 +23,5 @@ VARIANTS = [
     V('benign-temp-result', S, ("return self.data - other_object\n", "difference = self.data - other_object\n        return difference\n"), 'silent'),
     V('benign-radd-zero-identity', S, ("new_object : result of addition, either a screw or matrix.\n        \"\"\"\n        return self.__add__(other_object)", "new_object : result of addition, either a screw or matrix.\n        \"\"\"\n        if isinstance(other_object, (int, float)) and other_object == 0:\n            return self.copy()\n        return self.__add__(other_object)"), 'silent'),
     V('rsub-zero-returns-self', S, ("return other_object - self.data\n", "if isinstance(other_object, (int, float)) and other_object == 0:\n            return self.copy()\n        return other_object - self.data\n"), 'fire', 'R12.1'),
+    V('sub-inline-twist-rule', S, ("local_frame_other = other_object.copy().changeFrame(self.frame_applied)\n                return Screw(self.data- local_frame_other.data, self.frame_applied.copy())", "frame_transition = globalToLocal(self.frame_applied, other_object.frame_applied)\n                return Screw(self.data - frame_transition.adjoint() @ other_object.data,\n                        self.frame_applied.copy())"), 'fire', 'reconciled through changeFrame'),
 ]
